@@ -293,6 +293,8 @@ pub struct Trace {
     /// every message of the real run with the state count before / after the iteration that emitted it
     pub stamped: Vec<(String, u64, u64)>,
     pub sum_at_last_tick: u64,
+    pub armed_at_exit: u64,
+    pub armed: Option<(u64, u8)>,
 }
 
 pub struct RunResult {
@@ -303,6 +305,7 @@ pub struct RunResult {
     pub msgs: Vec<String>,
     pub ticks: u64,
     pub gave_up: bool,
+    pub armed: Option<(u64, u8)>,
 }
 
 /// pending requests as a multiset (their order is not pinned by any property)
@@ -363,6 +366,12 @@ pub fn pinned_messages(msgs: &[String], strip_stamps: bool) -> Vec<String> {
 /// As `traced_run`, with the state count starting at `start` (a system that has been running for a
 /// long time: counters beyond 2^31 / 2^32).
 pub fn traced_run_from(elf_path: &str, args: &str, with_twin: bool, max_ticks: u64, start: u64, pins: &[u8; 11]) -> (RunResult, Vec<(String, String)>) {
+    traced_run_armed(elf_path, args, with_twin, max_ticks, start, pins, None)
+}
+
+/// `arm_at`: (iteration, value) - for runs without a twin, repeat the TCNT0 poke a twinned run of the
+/// same program made at that iteration (see "reaches the exit address" below)
+pub fn traced_run_armed(elf_path: &str, args: &str, with_twin: bool, max_ticks: u64, start: u64, pins: &[u8; 11], arm_at: Option<(u64, u8)>) -> (RunResult, Vec<(String, String)>) {
     let mut rig = RunRig::new();
     crate::elf::load(elf_path.to_string(), &mut rig.cpu, args.to_string());
     // external levels on the port pins (they matter for mixed-direction ports)
@@ -412,6 +421,11 @@ pub fn traced_run_from(elf_path: &str, args: &str, with_twin: bool, max_ticks: u
             t.stopped = true;
             let _ = stop_tx.send("cmd:stop".to_string());
             return;
+        }
+        if let Some((k, v)) = arm_at {
+            if t.ticks == k {
+                crate::mon::real_poke(cpu, 0xffff88, v);
+            }
         }
         {
             // messages emitted since the previous tick belong to the iteration in between
@@ -493,6 +507,21 @@ pub fn traced_run_from(elf_path: &str, args: &str, with_twin: bool, max_ticks: u
         }));
         match r {
             Ok(Ok(s)) => {
+                // the instruction of this iteration reaches the exit address: if the guest has the
+                // timer running with the compare-match interrupt enabled and I clear, let the match
+                // fall into this very instruction (TCNT0 := TCORA0 - 1 on both machines, before either
+                // has charged it) - the request is then pending when PC equals the exit address, and
+                // the run must still end there
+                if twin.cpu.verif_pc() == twin.cpu.exit_addr && twin.cpu.verif_ccr() & 0x80 == 0 {
+                    let tr0 = timer_regs(&twin.cpu);
+                    if tr0[0] & 7 != 0 && tr0[0] & 0x40 != 0 && tr0[2] != 0 {
+                        let v = tr0[2].wrapping_sub(1);
+                        crate::mon::real_poke(&mut twin.cpu, 0xffff88, v);
+                        crate::mon::real_poke(cpu, 0xffff88, v);
+                        t.armed_at_exit += 1;
+                        t.armed = Some((t.ticks, v));
+                    }
+                }
                 t.last_states = s as u32;
                 let scaled = s as u64 * k;
                 let tsum = twin.cpu.bus.cpu_state_sum + scaled as usize;
@@ -603,7 +632,7 @@ pub fn traced_run_from(elf_path: &str, args: &str, with_twin: bool, max_ticks: u
             findings.push((aspect.into(), format!("message {} (repeated port announcements removed) is {:?}, expected {:?} ({} emitted, {} expected, {} thresholds crossed)", i, msgs.get(i), expected_msgs.get(i), msgs.len(), expected_msgs.len(), t.crossed)));
         }
     }
-    let res = RunResult { end, regs: rig.cpu.er, state_sum: rig.cpu.verif_state_sum() as u64, digest: mem_digest(&rig.cpu), msgs, ticks: t.ticks, gave_up: t.gave_up };
+    let res = RunResult { end, regs: rig.cpu.er, state_sum: rig.cpu.verif_state_sum() as u64, digest: mem_digest(&rig.cpu), msgs, ticks: t.ticks, gave_up: t.gave_up, armed: t.armed };
     (res, findings)
 }
 
@@ -683,7 +712,7 @@ pub fn c13_case(rep: &mut Report, seed: u64, verbose: bool) -> bool {
                     }));
                 }
             }
-            let (r, _) = traced_run_from(&path, &args, false, 6_000_000, start, &prog.pins);
+            let (r, _) = traced_run_armed(&path, &args, false, 6_000_000, start, &prog.pins, res.armed);
             busy.store(false, std::sync::atomic::Ordering::Relaxed);
             for h in handles {
                 let _ = h.join();
